@@ -1,8 +1,10 @@
 #!/bin/sh
-# Build the framework from files on disk only (offline).
+# Build the framework from files on disk only (offline): Lean model, drivers and every proof module,
+# then the two Rust harnesses against /repo's working tree.
 set -e
 cd "$(dirname "$0")"
 export CARGO_NET_OFFLINE=true
 mkdir -p work evidence replays
-(cd lean && lake build SLV slvmodel)
+(cd lean && lake build SLV slvmodel slvarr)
 (cd harness && cargo build --release --offline)
+(cd harness_arr && cargo build --release --offline)
